@@ -132,6 +132,12 @@ Theorem C20_times_stored_truncated_refuted : exists t1 t2 w, t2 - stored_down t1
 Proof. exact stored_down_refuted. Qed.
 Print Assumptions C20_times_stored_truncated_refuted.
 
+(* the cache file is line-oriented: a tag with a line break inside is treated as no tag at all, so what is read back from
+   the cache is what a lookup returned, never a prefix of it *)
+Theorem C20_a_tag_kept_in_the_cache_is_a_single_line : forall i t, fetched i = Some t -> existsb is_eol t = false.
+Proof. exact fetched_single_line. Qed.
+Print Assumptions C20_a_tag_kept_in_the_cache_is_a_single_line.
+
 Example ex_install : update_action (s "v1.2.3") (s "1.10.0") = Install. Proof. reflexivity. Qed.
 Example ex_prompt : update_action (s "1.9.9-rc1") (s "v2.0.0") = PromptMajor. Proof. reflexivity. Qed.
 Example ex_latest : update_action (s "1.2.3") (s "v1.2.3") = AlreadyLatest. Proof. reflexivity. Qed.
